@@ -47,6 +47,8 @@ def make_case(args):
     nextra = rng.choice([0, 1, 1, 2, 2, 3])
     names = rng.sample(["time", "site", "lat", "lon"], nextra)
     shape = [rng.randint(1, 3) for _ in names]
+    if len(shape) >= 2 and rng.random() < 0.5:
+        shape = [rng.randint(2, 3)] * len(shape)
     nf, nd = rng.choice([5, 6, 8, 10]), rng.choice([8, 12, 16])
     freq, _ = gen.gen_freq(rng, nf, kind=rng.choice(["log", "irregular"]))
     dirs, order = gen.gen_dirs(rng, nd, order=rng.choice(["sorted", "rotated", "seam"]))
@@ -70,11 +72,17 @@ def make_case(args):
         return xr.DataArray(np.array([rng.uniform(lo, hi) for _ in range(npos)]).reshape(tuple(da.sizes[d] for d in lead)), dims=lead,
                             coords={d: da[d] for d in lead})
     aux = dict(wspd=auxarr(2, 20), wdir=auxarr(0, 360), dpt=auxarr(8, 300))
+    if len(lead) >= 2 and rng.random() < 0.6:
+        # forcing stored with its dimensions in another order than efth's (values are attached to labels, not positions)
+        perm = list(lead)
+        while perm == list(lead):
+            rng.shuffle(perm)
+        aux = {k: v.transpose(*perm).copy() for k, v in aux.items()}
     if rng.random() < 0.5:
         # mix of very deep and shallow sites (relative depth matters to the dispersion relation)
         import xarray as xr2
         vals = np.array([rng.choice([6.0, 20.0, 500.0, 2000.0, 4000.0]) for _ in range(npos)]).reshape(tuple(da.sizes[d] for d in lead))
-        aux["dpt"] = xr2.DataArray(vals, dims=lead, coords={d: da[d] for d in lead})
+        aux["dpt"] = xr2.DataArray(vals, dims=lead, coords={d: da[d] for d in lead}).transpose(*aux["wspd"].dims)
     C = opcat.catalogue()
     C["mss_dpt"] = lambda da, aux: da.spec.mss(depth=aux["dpt"])
     C["uss_dpt"] = lambda da, aux: da.spec.uss(depth=aux["dpt"])
